@@ -387,5 +387,5 @@ VerdictOf ==
     C11 |-> {"phantom_failure", "lost_failure", "reported_failure_never_happened", "flaky_report", "skip_misjudged",
              "label_carried_over", "failure_message", "dead_context_in_body", "context_outlives_case"},
     C17 |-> {"ff_ignored_silently", "ff_changed_verdict", "ff_changed_cases", "ff_after_failure", "ff_order", "unusable_file_used",
-             "check_crashed", "ff_phantom_failure"} ]
+             "check_crashed", "ff_phantom_failure", "ff_not_found"} ]   \* (an unusable file must not hide a usable one either)
 =============================================================================
